@@ -236,13 +236,32 @@ func dimsString(dims []dim) string {
 	return strings.Join(s, " ")
 }
 
+// bucket separates, before the scopes are computed, the one input class the design round already
+// suspected (empty payload without compression) from everything else, so that a second defect in
+// the same stage gets a signature of its own instead of widening the first one.
+func bucket(dims []dim) string {
+	l, z := "", ""
+	for _, d := range dims {
+		switch d.k {
+		case "len":
+			l = d.v
+		case "zip":
+			z = d.v
+		}
+	}
+	if l == "0" && z == "none" {
+		return "len0"
+	}
+	return ""
+}
+
 func (c *collector) flush() {
 	c.mu.Lock()
 	defer c.mu.Unlock()
 	groups := map[string][]failure{}
 	var order []string
 	for _, f := range c.fails {
-		g := f.kind + "\x00" + f.stage
+		g := f.kind + "\x00" + f.stage + "\x00" + bucket(f.dims)
 		if _, ok := groups[g]; !ok {
 			order = append(order, g)
 		}
